@@ -254,10 +254,6 @@ func (rw *rewriter) file(opts Options) error {
 			name = types.ExprString(fd.Recv.List[0].Type) + "." + name
 		}
 		rw.fn = name
-		if containsSelect(fd.Body) {
-			rw.rep.Skipped = append(rw.rep.Skipped, rw.f.rel+":"+name)
-			continue
-		}
 		if fd.Doc != nil {
 			for _, c := range fd.Doc.List {
 				if strings.HasPrefix(c.Text, "//go:") {
@@ -421,10 +417,6 @@ func (rw *rewriter) walk(n ast.Node, depth int, opts Options) error {
 		}
 		switch x := n.(type) {
 		case *ast.FuncLit:
-			if containsSelect(x.Body) {
-				rw.rep.Skipped = append(rw.rep.Skipped, fmt.Sprintf("%s:%s (func literal line %d)", rw.f.rel, rw.fn, rw.fset.Position(x.Pos()).Line))
-				return
-			}
 			id := rw.site(x.Body.Lbrace, "func")
 			rw.insert(x.Body.Lbrace+1, fmt.Sprintf(" %s.Yield(%d);", alias, id), 0)
 			visitList(x.Body.List, true, depth+1)
@@ -439,7 +431,7 @@ func (rw *rewriter) walk(n ast.Node, depth int, opts Options) error {
 			visitList(x.Body, false, depth+1)
 			return
 		case *ast.CommClause:
-			fail(x.Pos(), "select clause inside an instrumented function")
+			fail(x.Pos(), "communication clause outside a select statement")
 			return
 		case *ast.LabeledStmt:
 			switch x.Stmt.(type) {
@@ -598,7 +590,13 @@ func (rw *rewriter) walk(n ast.Node, depth int, opts Options) error {
 				}
 			}
 		case *ast.SelectStmt:
-			fail(x.Pos(), "select inside an instrumented function")
+			if e := rw.selectStmt(x, depth); e != nil {
+				fail(x.Pos(), "%v", e)
+				return
+			}
+			for _, cl := range x.Body.List {
+				visitList(cl.(*ast.CommClause).Body, false, depth+1)
+			}
 			return
 		}
 		// generic descent
@@ -756,4 +754,82 @@ func (rw *rewriter) rangeChan(x *ast.RangeStmt, depth int) {
 	rw.replace(x.For, x.X.Pos(), fmt.Sprintf("{ %s := ", c))
 	rw.replace(x.X.End(), x.Body.Lbrace+1, head)
 	rw.insert(x.Body.Rbrace+1, " }", -depth)
+}
+
+// selectStmt rewrites
+//
+//	select { case c <- v: A; case x, ok := <-d: B; default: C }
+//
+// into a switch over verifsim.Select, which lets the scheduler decide which ready clause is taken
+// (appendix A).  Channel and value expressions are evaluated once, before the choice.
+func (rw *rewriter) selectStmt(x *ast.SelectStmt, depth int) error {
+	id := rw.site(x.Pos(), "select")
+	var decls, cases []string
+	hasDefault := false
+	idx := 0
+	for _, cl := range x.Body.List {
+		cc, ok := cl.(*ast.CommClause)
+		if !ok {
+			return fmt.Errorf("unexpected statement in select")
+		}
+		if cc.Comm == nil {
+			hasDefault = true
+			continue
+		}
+		header := fmt.Sprintf("case %d:", idx)
+		switch comm := cc.Comm.(type) {
+		case *ast.SendStmt:
+			cases = append(cases, fmt.Sprintf("%s.CaseSend(%s, %s)", alias, rw.text(comm.Chan.Pos(), comm.Chan.End()), rw.text(comm.Value.Pos(), comm.Value.End())))
+		case *ast.ExprStmt:
+			u, ok := ast.Unparen(comm.X).(*ast.UnaryExpr)
+			if !ok || u.Op != token.ARROW {
+				return fmt.Errorf("unsupported select clause")
+			}
+			cases = append(cases, fmt.Sprintf("%s.CaseRecv(%s, nil, nil)", alias, rw.text(u.X.Pos(), u.X.End())))
+		case *ast.AssignStmt:
+			if len(comm.Rhs) != 1 {
+				return fmt.Errorf("unsupported select clause")
+			}
+			u, ok := ast.Unparen(comm.Rhs[0]).(*ast.UnaryExpr)
+			if !ok || u.Op != token.ARROW {
+				return fmt.Errorf("unsupported select clause")
+			}
+			c := fmt.Sprintf("c__%d_%d", id, idx)
+			r := fmt.Sprintf("r__%d_%d", id, idx)
+			k := fmt.Sprintf("ok__%d_%d", id, idx)
+			decls = append(decls, fmt.Sprintf("%s := %s; %s := %s.Zero(%s); %s := false; _, _ = %s, %s", c, rw.text(u.X.Pos(), u.X.End()), r, alias, c, k, r, k))
+			cases = append(cases, fmt.Sprintf("%s.CaseRecv(%s, &%s, &%s)", alias, c, r, k))
+			var lhs, rhs []string
+			for i, l := range comm.Lhs {
+				if isBlank(l) {
+					continue
+				}
+				lhs = append(lhs, rw.text(l.Pos(), l.End()))
+				rhs = append(rhs, []string{r, k}[i])
+			}
+			if len(lhs) > 0 {
+				tok := ":="
+				if comm.Tok == token.ASSIGN {
+					tok = "="
+				}
+				header += fmt.Sprintf(" %s %s %s;", strings.Join(lhs, ", "), tok, strings.Join(rhs, ", "))
+			}
+		default:
+			return fmt.Errorf("unsupported select clause")
+		}
+		rw.replace(cc.Pos(), cc.Colon+1, header)
+		idx++
+	}
+	head := "{ "
+	for _, d := range decls {
+		head += d + "; "
+	}
+	args := fmt.Sprintf("%d, %v", id, hasDefault)
+	for _, c := range cases {
+		args += ", " + c
+	}
+	head += fmt.Sprintf("switch %s.Select(%s) {", alias, args)
+	rw.replace(x.Select, x.Body.Lbrace+1, head)
+	rw.insert(x.Body.Rbrace+1, " }", -depth)
+	return nil
 }
